@@ -52,7 +52,8 @@ class Prop:
     hang_rule = "did-not-finish"
     chunk = 50
     rule = ("seeded finite schedules with 0-400 actions at the same due time (plus a few at other times), some of which reschedule "
-            "themselves at the current time a bounded number of times, on VirtualTimeScheduler/TestScheduler (numeric clock) and "
+            "themselves at the current time a bounded number of times and some of which are cancelled while queued (right after scheduling, or by "
+            "the action scheduled just before them), on VirtualTimeScheduler/TestScheduler (numeric clock) and "
             "HistoricalScheduler (datetime clock), driven by start() or advance_to(); the run must return within the CPU-time watchdog, "
             "every action must have run exactly once per scheduling in (due, seq) order with a monotone clock, and a drained scheduler "
             "must run newly scheduled work when started again. Distinct = (clock kind, driver, burst size, reschedule count); non-trivial "
@@ -64,7 +65,10 @@ class Prop:
         burst = rng.choice([0, 1, 50, 99, 100, 101, 102, 150, 203, 250, 400])
         return {"clock": rng.choice(["vts", "test", "historical", "historical"]), "burst": burst, "at": rng.choice([0, 10, 50]),
                 "resched": rng.choice([0, 0, 1, 5, 120]), "others": [rng.choice([0, 5, 10, 60, 100]) for _ in range(rng.randrange(0, 4))],
-                "driver": rng.choice(["start", "advance_to"]), "restart": rng.choice([1, 3, 150])}
+                "driver": rng.choice(["start", "advance_to"]), "restart": rng.choice([1, 3, 150]),
+                # cancelled work in the queue: disposed right after scheduling (k-th scheduled action), or by the action scheduled before it
+                "cancel_pre": sorted(set(rng.randrange(0, max(1, burst + 3)) for _ in range(rng.choice([0, 0, 1, 2])))),
+                "cancel_by_prev": sorted(set(rng.randrange(1, max(2, burst + 3)) for _ in range(rng.choice([0, 0, 1]))))}
 
     def execute(self, sc):
         out = Outcome()
@@ -94,14 +98,21 @@ class Prop:
         log = []
         expected = []
         seq = [0]
+        disps = []  # disposables of the scheduled actions, in scheduling order
+        pre = set(sc.get("cancel_pre") or [])
+        by_prev = set(sc.get("cancel_by_prev") or [])
+        cancelled = set()
 
         def add(t, n_resched=0):
             seq[0] += 1
             aid = seq[0]
+            k = len(disps)
             expected.append((t, aid))
 
             def action(scheduler, state=None):
                 log.append((aid, now()))
+                if k + 1 in by_prev and k + 1 < len(disps):
+                    disps[k + 1].dispose()  # cancels the action scheduled right after this one (it may share this due time)
                 if n_resched:
                     # reschedule at the current time, a bounded number of times
                     seq[0] += 1
@@ -118,7 +129,10 @@ class Prop:
                     scheduler.schedule(again)
                 return Disposable()
 
-            s.schedule_absolute(ab(t), action)
+            disps.append(s.schedule_absolute(ab(t), action))
+            if k in pre:
+                disps[k].dispose()
+                cancelled.add(aid)
             return aid
 
         for i in range(sc["burst"]):
@@ -130,21 +144,33 @@ class Prop:
             s.start()
         else:
             s.advance_to(ab(horizon))
-        out.digest = (kind, sc["driver"], sc["burst"], sc["resched"], len(log))
+        out.digest = (kind, sc["driver"], sc["burst"], sc["resched"], len(log), tuple(sorted(pre)), tuple(sorted(by_prev)))
         out.sim_time = now()
         out.nontrivial = sc["burst"] > 100 or sc["resched"] > 100
         out.probes["clock:" + kind] += 1
         if sc["burst"] > 100:
             out.probes["burst_over_100"] += 1
         ran = [a for a, _ in log]
-        want_order = [aid for t, aid in sorted(expected)]
-        first_runs = [a for a in ran if a in set(want_order)]
+        want_order = []
+        dead = set(cancelled)
+        for t, aid in sorted(expected):  # (due, scheduling order); aid - 1 is the scheduling index
+            if aid in dead:
+                continue
+            want_order.append(aid)
+            if aid in by_prev:  # index aid is the one scheduled right after this action: cancelled by it, unless it ran already
+                if (aid + 1) not in want_order:
+                    dead.add(aid + 1)
+        if pre or by_prev:
+            out.probes["cancelled_items_in_queue"] += 1
+        scheduled_ids = set(aid for _, aid in expected)
+        first_runs = [a for a in ran if a in scheduled_ids]
         if first_runs != want_order:
             out.bad("order-or-lost", "clock=%s: %d scheduled actions, ran %d; first divergence at position %s" % (
                 kind, len(want_order), len(first_runs), next((i for i, (x, y) in enumerate(zip(first_runs, want_order)) if x != y), min(len(first_runs), len(want_order)))))
-        n_re = len([a for a in ran if a not in set(want_order)])
-        if sc["burst"] and n_re != sc["resched"]:
-            out.bad("reschedule-count", "self-rescheduling action ran %d times, expected %d" % (n_re, sc["resched"]))
+        n_re = len([a for a in ran if a not in scheduled_ids])
+        exp_re = sc["resched"] if (sc["burst"] and 1 in want_order) else 0  # (the self-rescheduling action is the first one scheduled)
+        if n_re != exp_re:
+            out.bad("reschedule-count", "self-rescheduling action ran %d times, expected %d" % (n_re, exp_re))
         ts = [t for _, t in log]
         if any(ts[i] > ts[i + 1] for i in range(len(ts) - 1)):
             out.bad("clock-backwards", "clock went backwards during the run")
